@@ -215,6 +215,7 @@ fn inline_job(case: &InlineCase, lines: Vec<String>) -> Job {
                 .collect(),
         },
         clock: Clock::default(),
+        real_state: false,
     }
 }
 
@@ -758,6 +759,7 @@ fn stream_job(case: &StreamCase) -> (Job, Vec<(usize, usize)>) {
                 .collect(),
         },
         clock: Clock::default(),
+        real_state: false,
     };
     (job, index)
 }
@@ -1012,6 +1014,7 @@ fn eval_limit(case: &LimitCase, ev: &mut Evaluation) {
             ..Default::default()
         },
         clock: Clock::default(),
+        real_state: false,
     };
     let trace = run_job(&job, &Schedule::reference(case.hash_seed), false);
     let first = &trace.execs[0].obs;
